@@ -1376,6 +1376,99 @@ def run_result_aliasing(block, ctx):
     ctx.sample({"callable": block[0]})
 
 
+# ---------------------------------------------------------------------------
+# clause: in-domain families that other properties construct (their seams), here only for "does not raise, returns
+# values of the documented kind, leaves its arguments alone"
+
+def imported_cases():
+    from . import c14
+    out = []
+    for c in c14.rts_cases()[::7] + c14.rts_seam_cases()[::3] + c14.rts_zero_hour_cases():
+        out.append(("rts", c))
+    # near-parabolic and hyperbolic-side orbits of the series branch (0.98 <= e, e != 1): every iteration count
+    for q in (0.1, 0.2009, 0.5871018, 1.0, 3.0):
+        for k in range(0, 31):
+            e = 0.98 + 0.002 * k
+            if abs(e - 1.0) < 1e-9:
+                continue
+            for j in range(-12, 13):
+                out.append(("minor", {"q": q, "e": round(e, 6), "dt": j * 14.3 + 0.76}))
+    # civil -> Moslem on every day of January and December (where its year estimate is corrected)
+    for y in range(623, 3001):
+        for mo in (1, 12):
+            out.append(("g2m", {"y": y, "m": mo}))
+    return out
+
+
+def check_imported(item):
+    kind, c = item
+    if kind == "rts":
+        from . import c14
+        from pymeeus.Coordinates import times_rise_transit_set
+        A = [c14.body(c["a0"], c["d0"], c["motion"][0], c["motion"][1], t) for t in (-1, 0, 1)]
+        args = [Angle(c["lon_w"]), Angle(c["lat"])] + [Angle(v) for p in A for v in p] + \
+            [Angle(c["h0"]), c14.DT, Angle(c.get("theta0", c14.THETA0))]
+        before = [a._deg for a in args if isinstance(a, Angle)]
+        try:
+            r = times_rise_transit_set(*args)
+        except Exception as ex:
+            return ["times_rise_transit_set raised %s: %s on in-domain arguments %r" % (type(ex).__name__, ex, c)]
+        if [a._deg for a in args if isinstance(a, Angle)] != before:
+            return ["times_rise_transit_set changed its arguments (%r)" % (c,)]
+        if r != (None, None, None) and not (isinstance(r, tuple) and len(r) == 3 and all_finite(r)):
+            return ["times_rise_transit_set returned %r for %r" % (r, c)]
+        return []
+    if kind == "minor":
+        T = Epoch(1998, 4, 14.4358)
+        try:
+            mb = Minor(c["q"], c["e"], Angle(11.94524), Angle(334.75006), Angle(186.23352), T)
+            r = mb.geocentric_position(T + c["dt"])
+        except ValueError as ex:
+            if "convergence" in str(ex).lower():
+                return [("noconv", "Minor(q=%r, e=%r).geocentric_position at T%+g d raised ValueError: %s"
+                         % (c["q"], c["e"], c["dt"], ex))]
+            return ["Minor(q=%r, e=%r).geocentric_position at T%+g d raised ValueError: %s" % (c["q"], c["e"], c["dt"], ex)]
+        except Exception as ex:
+            return ["Minor(q=%r, e=%r).geocentric_position at T%+g d raised %s: %s"
+                    % (c["q"], c["e"], c["dt"], type(ex).__name__, ex)]
+        if not all_finite(r):
+            return ["Minor(q=%r, e=%r) at T%+g d returned %r" % (c["q"], c["e"], c["dt"], canon(r))]
+        return []
+    out = []
+    for d in range(1, 32):
+        try:
+            r = Epoch.gregorian2moslem(c["y"], c["m"], d)
+        except Exception as ex:
+            out.append("gregorian2moslem(%d,%d,%d) raised %s: %s" % (c["y"], c["m"], d, type(ex).__name__, ex))
+            continue
+        if not (isinstance(r, tuple) and len(r) == 3 and 1 <= r[1] <= 12 and 1 <= r[2] <= 30 and r[0] >= 1):
+            out.append("gregorian2moslem(%d,%d,%d) = %r is not a date of the Moslem calendar" % (c["y"], c["m"], d, r))
+    return out
+
+
+def run_imported(block, ctx):
+    g0 = global_state()
+    for item in block:
+        ctx.evals += 31 if item[0] == "g2m" else 1
+        ctx.nt_count += 1
+        ctx.transitions += 1
+        for msg in check_imported(item):
+            if isinstance(msg, tuple):
+                # the near-parabolic series does not converge far from perihelion (finding C20-d, the C09-d defect
+                # seen from here): accepted only for the listed (q, e, t - T)
+                ctx.viol({"family": "minor", "q": item[1]["q"], "e": item[1]["e"], "dt": item[1]["dt"]}, msg[1],
+                         site="imported_minor_noconv")
+                continue
+            ctx.viol({"family": item[0], "case": item[1]}, msg, site="imported_" + item[0])
+        ctx.outcome(item[0])
+    dg = diff_keys(g0, global_state())
+    if dg:
+        ctx.viol({"family": block[0][0]}, "calls changed module-level state: %s" % dg[:5], site="globals_changed")
+    ctx.states += 1
+    ctx.traces += 1
+    ctx.sample({"family": block[0][0], "case": block[0][1]})
+
+
 def clauses(tier):
     S = SP.specs()
     names = sorted(S)
@@ -1398,6 +1491,10 @@ def clauses(tier):
         Clause("argument_tolerance", chunks(order, 32), run_arg_tolerance, check_arg_tolerance, floor=100, shape="H"),
         Clause("dense_domains", chunks(dense_cases(), 64), run_dense, lambda c: [m for _, m in check_dense(c)],
                floor=5000, shape="H"),
+        Clause("imported_domains", chunks(imported_cases(), 32), run_imported,
+               lambda c: [(m[1] if isinstance(m, tuple) else m) for m in check_imported(
+                   (c["family"], c["case"] if "case" in c else {"q": c["q"], "e": c["e"], "dt": c["dt"]}))], floor=5000,
+               shape="H"),
         Clause("object_reset", chunks(reset_cases(tier), 8), run_reset, check_reset, floor=100, shape="H"),
         Clause("boundary_probes", chunks(probe_cases(), 4), run_probes, _replay_probe, floor=50, shape="H"),
     ]
